@@ -415,7 +415,7 @@ else:
             if ret[k] != 0: bad.append(f'{{nm}}=False returned {{ret[k]}}')
             continue
         got = ret[k] if mode == 'none' else kw[nm][:ret[k]]
-        if got.shape != exp.shape or not np.allclose(got, exp, rtol=2e-5, atol=2e-5 * max(1.0, abs(box), abs(velz))):
+        if got.shape != exp.shape or not np.allclose(got, exp, rtol=2e-5, atol=2e-5 * (abs(box) if k == 0 else abs(velz))):   # scale-free: a tiny box must not hide a half-cell error
             bad.append(f'{{nm}}: got {{np.asarray(got).tolist()}} expected {{exp.tolist()}} for records {{data.tolist()}}')
 print('case', case)
 for b in bad: print('  ', b)
